@@ -61,6 +61,15 @@ func genC11(g *Gen) *Plan {
 		pop = S + g.n(1, 300)
 		nreq = pop + g.n(100, 600)
 	}
+	// a fifth of the runs re-apply the configuration with other sizes for the same cache while
+	// traffic continues (cache size is documented as restart-only: whichever size is in force,
+	// residency must stay within the largest size ever configured)
+	if g.p(0.2) && S <= 128 {
+		for i := 0; i < g.n(1, 3); i++ {
+			c := baseConfig(pick(g, 1, 3, 5, 7, 8, 20, 100, 127, 2000), "1s", store)
+			p.Configs = append(p.Configs, c)
+		}
+	}
 	p.Default = cacheable(3600, 12)
 	p.Notes = fmt.Sprintf("size=%d population=%d requests=%d", S, pop, nreq)
 	// access pattern: mixture of a sweep, a hot set and uniform picks
@@ -82,15 +91,19 @@ func genC11(g *Gen) *Plan {
 			op.Barrier = true
 		}
 		p.Ops = append(p.Ops, op)
+		if len(p.Configs) > 1 && g.p(3.0/float64(nreq)) {
+			p.Ops = append(p.Ops, Op{Kind: OpReload, Config: g.n(1, len(p.Configs)-1), Barrier: true})
+		}
 	}
 	return p
 }
 
 type c11State struct {
-	size    int
-	recency map[int][]string // shard -> keys, least recent first
-	nextReq int
-	evPos   int
+	size     int
+	recency  map[int][]string // shard -> keys, least recent first
+	nextReq  int
+	reloaded bool
+	evPos    int
 }
 
 func armC11(e *Engine) {
@@ -107,6 +120,19 @@ func armC11(e *Engine) {
 		if d == nil {
 			return
 		}
+		// the bound in force: the largest size configured so far for this cache
+		for _, m := range e.hist.Misc {
+			if m.Kind == "reload" {
+				var ci int
+				fmt.Sscanf(m.Text, "%d", &ci)
+				if ci < len(e.plan.Configs) {
+					if sz := e.plan.Configs[ci].Caches[0].Size; sz > st.size {
+						st.size = sz
+					}
+					st.reloaded = true
+				}
+			}
+		}
 		n := d.VerifLen()
 		if n == st.size {
 			e.hist.Probes["resident==size"]++
@@ -115,7 +141,7 @@ func armC11(e *Engine) {
 			e.violate("C11", "residency-exceeds-size", "more keys resident than the configured size",
 				fmt.Sprintf("cache size %d but %d keys are resident after step %d (shard lengths %v)", st.size, n, e.step, d.VerifShardLens()))
 		}
-		if !e.plan.Sequential {
+		if !e.plan.Sequential || st.reloaded {
 			return
 		}
 		// sequential histories: every request is one lookup, in operation order
